@@ -67,9 +67,18 @@ def sh(cmd, cwd=None, env=None, input=None, timeout=None, binary=False):
     e = dict(os.environ)
     if env:
         e.update(env)
-    p = subprocess.run(cmd, cwd=cwd, env=e, input=input, stdout=subprocess.PIPE,
-                       stderr=subprocess.PIPE, timeout=timeout,
-                       shell=isinstance(cmd, str), text=not binary)
+    try:
+        p = subprocess.run(cmd, cwd=cwd, env=e, input=input, stdout=subprocess.PIPE,
+                           stderr=subprocess.PIPE, timeout=timeout,
+                           shell=isinstance(cmd, str), text=not binary)
+    except subprocess.TimeoutExpired as ex:
+        # a harness that does not come back (a hang IS an observation): report it like a crash, with
+        # the output produced so far, so that the caller names the op it stopped at
+        def dec(b):
+            if b is None:
+                return b'' if binary else ''
+            return b if binary or isinstance(b, str) else b.decode('utf-8', 'replace')
+        return -9, dec(ex.stdout), (dec(ex.stderr) if not binary else b'') + ('' if binary else '\nTIMEOUT after %s s (process killed)' % timeout)
     return p.returncode, p.stdout, p.stderr
 
 
@@ -389,8 +398,11 @@ class Ctx:
         return os.path.join(LEAN, '.lake', 'build', 'bin', name)
 
     # ---- running -----------------------------------------------------------------
-    def run_lines(self, cmd, text, env=None, timeout=3600, cwd=None):
-        """Feed op lines, return (rc, list of output lines, stderr)."""
+    def run_lines(self, cmd, text, env=None, timeout=None, cwd=None):
+        """Feed op lines, return (rc, list of output lines, stderr).  rc = -9 and stderr ending in
+        TIMEOUT when the process had to be killed (quick tier: 15 min, thorough: 90 min)."""
+        if timeout is None:
+            timeout = 900 if self.tier == 'quick' else 5400
         rc, so, se = sh(cmd, input=text, env=env, timeout=timeout, cwd=cwd)
         lines = so.split('\n')
         if lines and lines[-1] == '':
